@@ -12,7 +12,7 @@ VG = ["valgrind", "-q", "--error-limit=no", "--num-callers=12"]
 
 def cfgs(tier):
     if tier == "quick":
-        return [Cfg("asm", 4, 2, 4, instr="releaseg"), Cfg("c32", 3, 3, 3, instr="releaseg"), Cfg("c64", 2, 1, 2, instr="releaseg"), Cfg("dxor", 4, 2, 4, instr="releaseg"), Cfg("generic", 4, 2, 4, instr="releaseg")]
+        return [Cfg("asm", 4, 2, 4, instr="releaseg"), Cfg("c32", 3, 3, 3, instr="releaseg"), Cfg("c64", 2, 1, 2, instr="releaseg"), Cfg("dxor", 4, 4, 4, instr="releaseg"), Cfg("generic", 4, 2, 4, instr="releaseg")]
     return [Cfg(b, *t, instr="releaseg") for b in ("asm", "c64", "c32", "dxor", "generic") for t in ((4, 2, 4), (3, 3, 3), (2, 1, 2))]
 
 
